@@ -114,7 +114,9 @@ def gen_value(r, kind, old):
     if kind == "num":
         return r.choice(["0", "1", "7", "1700000000", str(r.randint(0, 10 ** 9)), "4294967296"])
     if kind == "time":
-        return r.choice(["1", "1400000000", "1700000000", str(r.randint(1, 2 * 10 ** 9)), "4294967296"])
+        # (second stamps of every size a peer may send: today's, past 2**32, 11-13 digits — a millisecond stamp is a value like any other)
+        return r.choice(["1", "1400000000", "1700000000", str(r.randint(1, 2 * 10 ** 9)), "4294967296", "99999999999", "100000000000", "253402300800", "1415470561123",
+                         str(r.randint(10 ** 11, 10 ** 13))])
     if kind == "jid":
         if "-" in str(old):
             return "%d-%d@g.us" % (r.randint(10 ** 9, 10 ** 11), r.randint(10 ** 9, 2 * 10 ** 9))
